@@ -13,7 +13,7 @@ class Prop:
     id = "C29"
     level = "exploration"
     engine = "VT (with the wall-clock watchdog as part of the oracle)"
-    quick_runs = 3000
+    quick_runs = 8000
     thorough_runs = 100000
     run_wall = 2.0
     hang_rule = "did-not-finish"
